@@ -119,11 +119,11 @@ def battery(kind, rng, n_random=24):
     return pts + [(rng.randrange(dom) | (0 if has_p else 3 << 382), rng.randrange(dom) | (0 if has_p else 3 << 382)) for _ in range(n_random)]
 
 
-def selftest(prog, kind):
+def selftest(prog, kind, n_random=24):
     """interpreter self-test: concrete mode against python big integers on the battery, every alias pattern"""
     rng = random.Random(int(os.environ.get("VERIF_SEED", "0")) + 11)
     n = 0
-    pts = battery(kind, rng)
+    pts = battery(kind, rng, n_random)
     for alias in ALIASES[kind]:
         for a, b in pts:
             if alias == 3:
@@ -234,8 +234,8 @@ def a64_simple(prog, kind, alias, timeout_ms=60000):
         settle(L.prove(vc, kind), prog, kind, alias, key, "%s%s differs from the specification (alias pattern %d)" % (PFX, kind, alias), model)
     witness(L, _inputs_env(av, bv, R384 - 1, R384 - 2), "only")
     return {"queries": L.queries + X.queries + 1, "solver_s": L.solver_time, "paths": npaths, "functions": [PFX + kind],
-            "sample": "%s%s alias=%d: %d path(s), %d instructions, linear-integer VC (result and returned bit) for all 384-bit operands" % (
-                PFX, kind, alias, npaths, X.steps)}
+            "sample": "%s%s alias=%d: %d path(s), %d instructions, linear-integer VC (result and returned bit) for all 384-bit operands; "
+                      "%d unproved dropped carries; constraint set satisfiable on a concrete execution" % (PFX, kind, alias, npaths, X.steps, len(X.lost_carries))}
 
 
 def _product_form(L, av, bv):
@@ -266,8 +266,9 @@ def a64_multiply(prog, kind, alias, timeout_ms=60000):
     settle(L.prove(ident, "product identity"), prog, kind, alias, key, detail + _lost(X), lambda: _product_model(L, ident, bv is av))
     witness(L, _inputs_env(av, bv, R384 - 1, R384 - 2), "only")
     return {"queries": L.queries + X.queries + 1, "solver_s": L.solver_time, "paths": 1, "functions": [PFX + kind],
-            "sample": "%s%s%s: %d instructions, %d dropped carries proved zero, identity over %d opaque word products" % (
-                PFX, kind, " (a and b the same object)" if alias == 3 else "", X.steps, X.proved_carries, len(L.products))}
+            "sample": "%s%s%s: %d instructions, %d dropped carries proved zero (%d unproved), identity over %d opaque word products; "
+                      "constraint set satisfiable on a concrete execution" % (
+                PFX, kind, " (a and b the same object)" if alias == 3 else "", X.steps, X.proved_carries, len(X.lost_carries), len(L.products))}
 
 
 # ---------------------------------------------------------------------------------------------------------------
@@ -377,5 +378,8 @@ def a64_montgomery(prog, kind, alias=0, timeout_ms=60000):
     queries += 1 + len(X.cuts)
     ctxs = [L] + [c["L"] for c in X.cuts[1:]] + [Ls]
     return {"queries": queries + X.queries + sum(c.queries for c in ctxs), "solver_s": sum(c.solver_time for c in ctxs), "paths": len(paths), "functions": [sym],
-            "sample": "%s alias=%d: %d instructions, %d carries proved zero, cuts at %s, %d suffix paths" % (
-                sym, alias, X.steps, X.proved_carries, ", ".join("%#x (%s)" % (c["at"], c["why"]) for c in X.cuts), len(paths))}
+            "sample": "%s alias=%d: %d instructions executed (prefix once, suffix per path), %d carries proved zero (%d unproved), cuts at %s, %d suffix "
+                      "paths; %sT*2^384 = A + U*p and T < 2p at the first compare, res = T or T-p on every path; every context's constraint set "
+                      "satisfiable on a concrete execution" % (sym, alias, X.steps, X.proved_carries, len(X.lost_carries),
+                                                              ", ".join("%#x (%s)" % (c["at"], c["why"]) for c in X.cuts), len(paths),
+                                                              "A = a*b (word-product identity) <= (p-1)^2; " if fused else "")}
